@@ -8,10 +8,14 @@ written function by function after the Python.  Literals, comparison operators, 
 before it is compared, the encoder/content-type pairing, the compression condition and the WSGI dispatch table come from
 `Generated/Http.lean` (re-extracted from the source on every run).
 
-Parameters (not modelled, see DESIGN.md §3/§4): `parse_qs` (on `str` and on `bytes`), `urlparse(path).query`, the two
+Parameters (not modelled, see DESIGN.md §3/§4): `parse_qs` (on `str` and on `bytes`), the two
 expositions and `RestrictedRegistry` (`Env.expo` — an opaque function of the format and of the optional list of names),
 `gzip.compress` (`Env.gzip`).  What IS modelled about `parse_qs` is its typing: `str` in → `str` keys, `bytes` in →
 `bytes` keys, and `'name[]' in params` is a lookup of a `str` key (`PyKey`).
+
+`urlparse(target).query` is modelled for origin-form request targets (`urlQuery`).  Header bytes: the ASGI app decodes
+them itself (modelled, codec extracted); for WSGI and MetricsHandler the server decodes them as latin-1 (PEP 3333;
+http.client.parse_headers) before the modelled code runs — trusted, see `Props.C17.Req`.
 
 The servers around the three entry points (wsgiref, an ASGI server, `http.server`) are outside the model; the inputs
 of the model are what those servers hand over: the `environ` dict, the `scope` dict, the parsed `headers`/`path`.
@@ -193,10 +197,23 @@ def wsgiApp {B : Type} (env : Env B) (parseQs : Str → List (Str × List Str)) 
 
 /-! ### ASGI: `make_asgi_app(registry, disable_compression).prometheus_app(scope, receive, send)` -/
 
-/-- `scope['headers']` after `.decode('utf8')` of names and values (undecodable bytes are outside the model), and
+/-- `b.decode('latin-1')`: total, byte `n` ↦ U+00nn -/
+def latin1 (b : Bytes) : Str := b.map fun x => Char.ofNat x.toNat
+
+/-- `b.decode(codec)` for the two codecs the extractor knows (`Generated.Http.asgiHeaderCodec/asgiQueryCodec`):
+latin-1 never raises; UTF-8 raises `UnicodeDecodeError` on ill-formed input. -/
+def decodeWith (codec : Str) (b : Bytes) : PyM Str :=
+  if codec = ['l', 'a', 't', 'i', 'n', '-', '1'] then .ok (latin1 b)
+  else if codec = ['u', 't', 'f', '-', '8'] then
+    match String.fromUTF8? (ByteArray.mk b.toArray) with
+    | some t => .ok t.toList
+    | none => .error .unicodeError
+  else .error .unicodeError
+
+/-- `scope['headers']` — (name, value) pairs of BYTES, as the server read them from the wire — and
 `scope.get('query_string', b'')` -/
 structure Scope where
-  headers : List (Str × Str)
+  headers : List (Bytes × Bytes)
   queryString : Option Bytes
 
 /-- `sep.join(parts)` -/
@@ -205,29 +222,48 @@ def joinWith (sep : Str) : List Str → Str
   | [p] => p
   | p :: q :: r => p ++ sep ++ joinWith sep (q :: r)
 
-/-- `",".join([value for (name, value) in headers if name.lower() == lit])` -/
-def asgiHeader (lit : Str) (hs : List (Str × Str)) : Str :=
-  joinWith asgiJoin ((hs.filter fun h => (if asgiNameLowered then lower h.1 else h.1) == lit).map (·.2))
+/-- `[value.decode(C) for (name, value) in headers if name.decode(C).lower() == lit]`: every NAME is decoded, the value
+only of a matching field; the first decoding error leaves the comprehension -/
+def asgiCollect (lit : Str) : List (Bytes × Bytes) → PyM (List Str)
+  | [] => .ok []
+  | (n, v) :: rest =>
+    match decodeWith asgiHeaderCodec n with
+    | .error e => .error e
+    | .ok name =>
+      if (if asgiNameLowered then lower name else name) == lit then
+        match decodeWith asgiHeaderCodec v with
+        | .error e => .error e
+        | .ok value => (asgiCollect lit rest).map (value :: ·)
+      else asgiCollect lit rest
 
-/-- No method or path dispatch.  The answer is sent when `receive()` yields an `http.request` message, which is what the
-model assumes.  All headers of `_bake_output` are forwarded (encoded to bytes).
+/-- `",".join([...])` -/
+def asgiHeader (lit : Str) (hs : List (Bytes × Bytes)) : PyM Str :=
+  (asgiCollect lit hs).map (joinWith asgiJoin)
 
-The query string is decoded (`.decode('latin-1')`, `decodeQ`) and `parse_qs` runs on the `str`, as in the other two
-front-ends (`asgiQueryDecoded = true`).  The other branch is what the source did before that repair: `parse_qs` on the
-`bytes` query string, which yields `bytes` keys (so `'name[]' in params` is never true) and raises
-`UnicodeEncodeError` / `UnicodeDecodeError` on non-ASCII escapes or bytes (`parseQsB q = .error .unicodeError`); it is
-kept so that a regression changes the model's behaviour rather than breaking the extraction. -/
+/-- `parse_qs(scope.get('query_string', b'').decode(C))` (`asgiQueryDecoded = true`).  The other branch is what the
+source did before commit 14bb0ad: `parse_qs` on the `bytes` query string, which yields `bytes` keys (so
+`'name[]' in params` is never true) and raises `UnicodeEncodeError` / `UnicodeDecodeError` on non-ASCII escapes or
+bytes (`parseQsB q = .error .unicodeError`); it is kept so that a regression changes the model's behaviour rather than
+breaking the extraction. -/
 def asgiParams (parseQs : Str → List (Str × List Str)) (parseQsB : Bytes → PyM (List (Bytes × List Bytes)))
-    (decodeQ : Bytes → PyM Str) (q : Bytes) : PyM Params :=
-  if asgiQueryDecoded then (decodeQ q).map fun s => strParams (parseQs s)
+    (q : Bytes) : PyM Params :=
+  if asgiQueryDecoded then (decodeWith asgiQueryCodec q).map fun s => strParams (parseQs s)
   else (parseQsB q).map bytesParams
 
+/-- No method or path dispatch.  Evaluation order of the source: params, Accept join, Accept-Encoding join, then
+`_bake_output`; an exception in any of them leaves the coroutine.  The answer is sent when `receive()` yields an
+`http.request` message, which is what the model assumes.  All headers of `_bake_output` are forwarded. -/
 def asgiApp {B : Type} (env : Env B) (parseQs : Str → List (Str × List Str))
-    (parseQsB : Bytes → PyM (List (Bytes × List Bytes))) (decodeQ : Bytes → PyM Str) (disable : Bool) (s : Scope) :
-    PyM (Resp B) :=
-  (asgiParams parseQs parseQsB decodeQ (s.queryString.getD [])).map fun params =>
-    bakeOutput env (some (asgiHeader asgiAcceptName s.headers)) (some (asgiHeader asgiAcceptEncodingName s.headers))
-      params disable
+    (parseQsB : Bytes → PyM (List (Bytes × List Bytes))) (disable : Bool) (s : Scope) : PyM (Resp B) :=
+  match asgiParams parseQs parseQsB (s.queryString.getD []) with
+  | .error e => .error e
+  | .ok params =>
+    match asgiHeader asgiAcceptName s.headers with
+    | .error e => .error e
+    | .ok accept =>
+      match asgiHeader asgiAcceptEncodingName s.headers with
+      | .error e => .error e
+      | .ok acceptEnc => .ok (bakeOutput env (some accept) (some acceptEnc) params disable)
 
 /-! ### `MetricsHandler.do_GET` -/
 
@@ -240,9 +276,16 @@ structure HandlerReq where
 def headersGet (name : Str) (hs : List (Str × Str)) : Option Str :=
   (hs.find? fun h => lower h.1 == lower name).map (·.2)
 
-/-- `do_GET`; `urlQuery path` = `urlparse(path).query`.  Compression cannot be switched off here. -/
-def handlerGet {B : Type} (env : Env B) (parseQs : Str → List (Str × List Str)) (urlQuery : Str → Str)
-    (h : HandlerReq) : Resp B :=
+/-- `urlparse(target).query` for an origin-form request target: starts with '/', not with '//', contains no TAB / CR /
+LF (a request line cannot).  `urlsplit` first cuts the fragment at the first '#', then the query at the first '?' of
+what is left; `urlparse` only splits `;params` off the path afterwards.  Compared with the real function at function
+level by the harness. -/
+def urlQuery (target : Str) : Str :=
+  ((target.takeWhile (· ≠ '#')).dropWhile (· ≠ '?')).drop 1
+
+/-- `do_GET`.  Header names and values are text: http.server decoded the header bytes as latin-1 (outside the model,
+see `Props.C17.Req.handler`).  Compression cannot be switched off here. -/
+def handlerGet {B : Type} (env : Env B) (parseQs : Str → List (Str × List Str)) (h : HandlerReq) : Resp B :=
   bakeOutput env (headersGet handlerAcceptName h.headers) (headersGet handlerAcceptEncodingName h.headers)
     (strParams (parseQs (urlQuery h.path))) handlerDisableCompression
 
